@@ -285,3 +285,15 @@ package nodes
 //@   loop 1 invariant emitted: 0 <= $k && $k <= len(list) && len(OUT) == old(len(OUT)) + $k && !produceFailed()
 //@   loop 1 step element: len(OUT) == old(len(OUT)) + 1 && lastOut().Retraction == record.Retraction && lastOut().EventTime == record.EventTime && len(lastOut().Values) == len(record.Values) && same(lastOut().Values[u.index], list[i]) && forall(q, 0, len(record.Values), q != u.index ==> same(lastOut().Values[q], record.Values[q]))
 //@   ensures count: result == nil ==> len(OUT) == old(len(OUT)) + len(record.Values[u.index].List)
+
+// C02 (lookup join), per source record and eventwise over the joined side's stream for that record: every joined
+// record yields exactly one output record — the source record's columns followed by the joined record's columns, a
+// retraction iff exactly one of the two is a retraction, stamped with the source record's event time; a failing
+// joined stream or produce fails the callback (and with it the node).
+//@ func (*LookupJoin).Run$lit1
+//@   stream 1 step IN pair: stepErr == nil ==> len(OUT) == old(len(OUT)) + 1 && len(lastOut().Values) == len(sourceRecord.Values) + len(lastIn().Values) && lastOut().Retraction == (sourceRecord.Retraction != lastIn().Retraction) && lastOut().EventTime == sourceRecord.EventTime && forall(q, 0, len(sourceRecord.Values), same(lastOut().Values[q], sourceRecord.Values[q])) && forall(q, 0, len(lastIn().Values), same(lastOut().Values[len(sourceRecord.Values) + q], lastIn().Values[q]))
+//@   stream 1 step INM forward: stepErr == nil ==> len(OUTM) == old(len(OUTM)) + 1 && lastOutM() == lastInM() && len(OUT) == old(len(OUT))
+//@   ensures errprop: runErr != nil ==> result != nil
+//@ func (*LookupJoin).Run
+//@   stream 1 step INM forward: stepErr == nil ==> len(OUTM) == old(len(OUTM)) + 1 && lastOutM() == lastInM() && len(OUT) == old(len(OUT))
+//@   ensures errprop: runErr != nil ==> result != nil
